@@ -6,6 +6,7 @@ FeatBasic  == { "DelPage" }
 FeatEdit   == { "DelPage", "EditKind", "StripMd", "Move" }
 FeatAll    == { "DelPage", "EditKind", "StripMd", "Move", "Rename", "Swap", "Break", "Paths", "LongDate", "Gap", "MultiLine" }
 FeatStamp  == { "StartStamped", "StripMd", "EditKind" }
+FeatStampM == { "StartStamped", "StartMulti", "MultiLine", "EditKind" }
 FeatBreak  == { "Break" }
 FeatPaths  == { "Paths", "DelPage" }
 
